@@ -234,17 +234,20 @@ theorem addInlined_nodes (finals : List Nat) : ∀ (nodes : List Node) (st : St)
       · simp [SameCore]
     simp only [addNode, hc.2.2.2.2.1, List.append_assoc, List.singleton_append]
 
-theorem renameFinals_core (st : St) (outs : List (Option Nat)) (d : Option (List String)) :
-    SameCore st (renameFinals st outs d) := by
+theorem renameFinals_core (guard : Nat → Bool) (st : St) (outs : List (Option Nat)) (d : Option (List String)) :
+    SameCore st (renameFinals guard st outs d) := by
   cases d with
   | some desired =>
     simp only [renameFinals]
     apply SameCore.foldl
     intro s x
-    obtain ⟨o, d⟩ := x
-    cases o with
+    cases x.1 with
     | none => simp [SameCore]
-    | some id => exact SameCore.rename s id _
+    | some id =>
+      simp only []
+      split
+      · exact SameCore.rename s id _
+      · simp [SameCore]
   | none =>
     simp only [renameFinals]
     apply SameCore.foldl
@@ -293,19 +296,26 @@ theorem popScope_handles (st : St) : (popScope st).handles = st.handles := by
   · split <;> rfl
   · rfl
 
-theorem inlineTail (st1 : St) (nodes : List Node) (finalsO : List (Option Nat)) (desired : Option (List String))
-    (pfx : String) :
-    (if pfx = "" then renameFinals (addInlined st1 (finalsO.filterMap id) nodes) finalsO desired
-      else popScope (renameFinals (addInlined st1 (finalsO.filterMap id) nodes) finalsO desired)).cur.nodes
-      = st1.cur.nodes ++ nodes ∧
-    (if pfx = "" then renameFinals (addInlined st1 (finalsO.filterMap id) nodes) finalsO desired
-      else popScope (renameFinals (addInlined st1 (finalsO.filterMap id) nodes) finalsO desired)).handles
-      = st1.handles := by
-  have hc := renameFinals_core (addInlined st1 (finalsO.filterMap id) nodes) finalsO desired
-  split
-  · exact ⟨by rw [hc.2.2.2.2.1, addInlined_nodes], by rw [hc.2.1, addInlined_handles]⟩
-  · exact ⟨by rw [popScope_nodes, hc.2.2.2.2.1, addInlined_nodes],
-      by rw [popScope_handles, hc.2.1, addInlined_handles]⟩
+theorem inlineRun_spec (total : Bool) (st0 : St) (f : Fn) (actuals : List (Option Nat))
+    (desired : Option (List String)) :
+    (inlineRun total st0 f actuals desired).1.cur.nodes = st0.cur.nodes ++ (inlineClones total st0 f actuals).2.2 ∧
+    (inlineRun total st0 f actuals desired).1.handles = st0.handles ∧
+    (inlineRun total st0 f actuals desired).2 = f.outputs.map (vmapGet (inlineClones total st0 f actuals).2.1) := by
+  unfold inlineRun
+  simp only []
+  have hc := renameFinals_core
+    (fun id => !total || ((inlineClones total st0 f actuals).2.2.flatMap (·.outs)).contains id)
+    (addInlined (inlineClones total st0 f actuals).1
+      ((f.outputs.map (vmapGet (inlineClones total st0 f actuals).2.1)).filterMap id)
+      (inlineClones total st0 f actuals).2.2)
+    (f.outputs.map (vmapGet (inlineClones total st0 f actuals).2.1)) desired
+  refine ⟨?_, ?_, trivial⟩
+  · rw [hc.2.2.2.2.1, addInlined_nodes]
+    unfold inlineClones
+    rw [cloneNodes_csd]
+  · rw [hc.2.1, addInlined_handles]
+    unfold inlineClones
+    rw [cloneNodes_handles]
 
 /-- on the success path `call_inline` appends exactly the clones of the body to the current graph and
     returns the values the function's outputs are mapped to. -/
@@ -323,25 +333,16 @@ theorem doInline_appends (total : Bool) (fns : List Fn) (st : St) (fi : Nat) (ar
     split <;> simp [pushScope]
   have hst0h : (if pfx = "" then st else pushScope st pfx).handles = st.handles := by
     split <;> simp [pushScope]
+  obtain ⟨r1, r2, r3⟩ := inlineRun_spec total (if pfx = "" then st else pushScope st pfx) f
+    (resolveArgs (if pfx = "" then st else pushScope st pfx) args).2
+    (outs.map (fun o => o.map (qualifyValue st.cur)))
   unfold doInline
-  simp only [hf, h1, Bool.not_true, Bool.false_eq_true, if_false, h2]
-  rw [if_neg (by simp [h3])]
-  simp only []
-  obtain ⟨t1, t2⟩ := inlineTail
-    (inlineClones total (if pfx = "" then st else pushScope st pfx) f
-      (resolveArgs (if pfx = "" then st else pushScope st pfx) args).2).1
-    (inlineClones total (if pfx = "" then st else pushScope st pfx) f
-      (resolveArgs (if pfx = "" then st else pushScope st pfx) args).2).2.2
-    (f.outputs.map (vmapGet (inlineClones total (if pfx = "" then st else pushScope st pfx) f
-      (resolveArgs (if pfx = "" then st else pushScope st pfx) args).2).2.1))
-    (outs.map (fun o => o.map (qualifyValue st.cur))) pfx
-  refine ⟨?_, ?_⟩
-  · rw [t1]
-    unfold inlineClones
-    rw [cloneNodes_csd, hst0]
-  · rw [t2]
-    unfold inlineClones
-    rw [cloneNodes_handles, hst0h]
+  simp only [hf, h1, Bool.not_true, Bool.false_eq_true, if_false, h2, h3]
+  by_cases hp : pfx = ""
+  · simp only [hp, if_true] at r1 r2 r3 ⊢
+    exact ⟨r1, by rw [r2, r3]⟩
+  · simp only [hp, if_false] at r1 r2 r3 hst0 hst0h ⊢
+    exact ⟨by rw [popScope_nodes, r1, hst0], by rw [popScope_handles, r2, r3, hst0h]⟩
 
 /-! ## frame lemmas for evaluation -/
 
@@ -808,5 +809,368 @@ theorem sim_call (S : OpSem α) (fns : List Fn) (args : List α) (total : Bool) 
       · have := q3 e y; rw [b2] at this; omega)
     (by rw [n4, s3, ← b3]; exact q4)
   simpa [replayStep, hf, n1, n2, n3, hlen] using hres
+
+theorem sim_meta (S : OpSem α) (args : List α) (st st' : St) (r : RSt α) (h : Sim S args st r)
+    (hb : Bnd st') (hL : st.L ≤ st'.L) (hh : st'.handles = st.handles) (hc : st'.cache = st.cache)
+    (hi : st'.inits = st.inits) (h1 : st'.cur.inputs = st.cur.inputs) (h2 : st'.cur.nodes = st.cur.nodes) :
+    Sim S args st' r := by
+  have hE : evalGraph S st' args = evalGraph S st args := by
+    unfold evalGraph baseEnv
+    rw [hc, h1, h2]
+  exact ⟨hb, h.cok.grow hc hi hL, by rw [h.nin, h1], by rw [h2, hi]; exact h.sep, by rw [hh, hE]; exact h.vals⟩
+
+theorem sim_fail (S : OpSem α) (args : List α) (st : St) (r : RSt α) (e : String) (h : Sim S args st r) :
+    Sim S args (fail st e) r := by
+  refine sim_meta S args st _ r h (Bnd.fail st e h.bnd) ?_ ?_ ?_ ?_ ?_ ?_ <;>
+    (unfold fail; split <;> simp)
+
+theorem sim_input (S : OpSem α) (fns : List Fn) (args : List α) (st : St) (r : RSt α) (nm : String)
+    (h : Sim S args st r) : Sim S args (doInput st nm) (replayStep S fns args r (.input nm)) := by
+  have hb := Bnd.doInput st nm h.bnd
+  have hold : ∀ k ∈ st.cur.nodes, NodeOK st.L st.inits k := h.bnd.nodes st.cur (by simp [St.frames])
+  have hcache : ∀ e ∈ st.cache, e.2 ≠ st.L := fun e he => Nat.ne_of_lt (h.cok.bound e he)
+  have hnotin : st.L ∉ st.cur.inputs := fun hc =>
+    Nat.lt_irrefl _ (h.bnd.finputs st.cur (by simp [St.frames]) _ hc)
+  have hshape : (doInput st nm).cur.inputs = st.cur.inputs ++ [st.L] ∧
+      (doInput st nm).cur.nodes = st.cur.nodes ∧ (doInput st nm).cache = st.cache ∧
+      (doInput st nm).inits = st.inits ∧ (doInput st nm).handles = st.handles ++ [some st.L] ∧
+      (doInput st nm).L = st.L + 1 := by
+    simp [doInput, newValue, newValueK, St.L]
+  obtain ⟨s1, s2, s3, s4, s5, s6⟩ := hshape
+  have hE : ∀ i, i < st.L → evalGraph S (doInput st nm) args i = evalGraph S st args i := by
+    intro i hi
+    unfold evalGraph
+    rw [s2]
+    apply evalNodes_agree S st.L _ _ _ _ (fun k hk j hj => ((hold k hk).2 j hj).1) i hi
+    intro j hj
+    unfold baseEnv
+    rw [s3, s1]
+    exact baseOf_input_ext S _ _ _ _ j (Nat.ne_of_lt hj)
+  have hnew : evalGraph S (doInput st nm) args st.L = args[r.nin]? := by
+    unfold evalGraph
+    rw [s2, evalNodes_other]
+    · unfold baseEnv
+      rw [s3, s1, baseOf_input_new S _ _ _ _ hcache hnotin, h.nin]
+    · intro k hk hc
+      exact Nat.lt_irrefl _ ((hold k hk).1 _ hc)
+  refine ⟨hb, h.cok.grow s3 s4 (by rw [s6]; omega), by simp [replayStep, h.nin, s1], by rw [s2, s4]; exact h.sep, ?_⟩
+  rw [s5, List.map_append]
+  simp only [replayStep, List.map_cons, List.map_nil, Option.bind_some, hnew]
+  congr 1
+  rw [← h.vals]
+  apply List.map_congr_left
+  intro o ho
+  cases o with
+  | none => rfl
+  | some i => exact hE i (h.bnd.handles i ho)
+
+/-- items of a subgraph-free, inline-free trace. -/
+def simItem : Item → Bool
+  | .inline _ _ _ _ => false
+  | .beginSub _ _ => false
+  | .endSub _ _ => false
+  | _ => true
+
+theorem simItem_wf {it : Item} (h : simItem it = true) : wfItem it = true := by
+  cases it <;> simp_all [simItem, wfItem]
+
+theorem sim_step (S : OpSem α) (fns : List Fn) (args : List α) (total : Bool) (st : St) (r : RSt α)
+    (it : Item) (hs : simItem it = true) (h : Sim S args st r) :
+    Sim S args (step total fns st it) (replayStep S fns args r it) := by
+  have hb := Bnd.step total fns st it (simItem_wf hs) h.bnd
+  cases it with
+  | input n => exact sim_input S fns args st r n h
+  | op t a o nn g => exact sim_op S fns args total st r t a o nn g h
+  | push n => exact sim_meta S args st _ r h hb (Nat.le_refl _) rfl rfl rfl rfl rfl
+  | pop =>
+    simp only [step, popScope, replayStep] at hb ⊢
+    split
+    · exact sim_fail S args st r _ h
+    · exact sim_meta S args st _ r h (by simpa [*] using hb) (Nat.le_refl _) rfl rfl rfl rfl rfl
+  | call fi a o =>
+    cases hf : fns[fi]? with
+    | none =>
+      simp only [step, doCall, hf, replayStep]
+      exact sim_fail S args st r _ h
+    | some f => exact sim_call S fns args total st r fi a o f hf h
+  | inline f a o p => simp [simItem] at hs
+  | beginSub g i => simp [simItem] at hs
+  | endSub r d => simp [simItem] at hs
+  | output hd n =>
+    refine sim_meta S args st _ r h hb ?_ ?_ ?_ ?_ ?_ ?_ <;>
+      (simp only [step, doOutput]; split <;> [skip; (split <;> [split; skip])]) <;>
+      simp [fail, renameValue, St.L] <;> (try split) <;> simp
+
+theorem Sim.init (S : OpSem α) (args : List α) : Sim S args St.init ⟨[], 0⟩ := by
+  refine ⟨Bnd.init, ⟨by simp [St.init], by simp [St.init], by simp [St.init]⟩, by simp [St.init],
+    by simp [St.init], by simp [St.init]⟩
+
+theorem sim_foldl (S : OpSem α) (fns : List Fn) (args : List α) (total : Bool) :
+    ∀ (tr : List Item) (st : St) (r : RSt α), (∀ it ∈ tr, simItem it = true) → Sim S args st r →
+    Sim S args (tr.foldl (step total fns) st) (tr.foldl (replayStep S fns args) r)
+  | [], _, _, _, h => h
+  | it :: rest, st, r, hs, h => by
+    simp only [List.foldl_cons]
+    exact sim_foldl S fns args total rest _ _ (fun x hx => hs x (by simp [hx]))
+      (sim_step S fns args total st r it (hs it (by simp)) h)
+
+/-! ## well-formedness through `call_inline` -/
+
+/-- everything the invariant reads, except the current graph's node list. -/
+def SameBut (st st' : St) : Prop :=
+  st'.L = st.L ∧ st'.handles = st.handles ∧ st'.cache = st.cache ∧ st'.inits = st.inits ∧
+  st'.cur.inputs = st.cur.inputs ∧ st'.stack = st.stack ∧ st'.done = st.done
+
+theorem SameBut.refl (st : St) : SameBut st st := ⟨rfl, rfl, rfl, rfl, rfl, rfl, rfl⟩
+
+theorem SameBut.trans {a b c : St} (h1 : SameBut a b) (h2 : SameBut b c) : SameBut a c := by
+  obtain ⟨a1, a2, a3, a4, a5, a6, a7⟩ := h1
+  obtain ⟨b1, b2, b3, b4, b5, b6, b7⟩ := h2
+  exact ⟨b1.trans a1, b2.trans a2, b3.trans a3, b4.trans a4, b5.trans a5, b6.trans a6, b7.trans a7⟩
+
+theorem SameCore.but {a b : St} (h : SameCore a b) : SameBut a b := by
+  obtain ⟨a1, a2, a3, a4, a5, a6, a7⟩ := h
+  exact ⟨a1, a2, a3, a4, by rw [a5], a6, a7⟩
+
+theorem addInlined_but (finals : List Nat) : ∀ (nodes : List Node) (st : St),
+    SameBut st (addInlined st finals nodes)
+  | [], st => SameBut.refl st
+  | n :: r, st => by
+    simp only [addInlined]
+    have hc : SameCore st (n.outs.foldl (fun s o =>
+        if nameOf s o ≠ "" ∧ o ∉ finals then renameValue s o (qualifyValue s.cur) else s) st) := by
+      apply SameCore.foldl
+      intro s o
+      split
+      · exact SameCore.rename s o _
+      · simp [SameCore]
+    refine SameBut.trans (SameBut.trans hc.but ?_) (addInlined_but finals r _)
+    simp [SameBut, addNode, St.L]
+
+theorem popScope_but (st : St) : SameBut st (popScope st) := by
+  unfold popScope fail
+  split
+  · split <;> simp [SameBut, St.L]
+  · simp [SameBut, St.L]
+
+theorem mem_mapIn {m : VMap} {ins : List (Option String)} {i : Nat} (h : some i ∈ ins.map (mapIn m)) :
+    ∃ x, vmapGet m x = some i := by
+  simp only [List.mem_map] at h
+  obtain ⟨o, _, ho⟩ := h
+  cases o with
+  | none => simp [mapIn] at ho
+  | some x => exact ⟨x, by simpa [mapIn] using ho⟩
+
+theorem cloneNode_wf (st : St) (m : VMap) (np : String) (n : FNode) {P : List Nat} (h : BndP st P)
+    (hb : ∀ x id, vmapGet m x = some id → id < st.L) :
+    BndP (cloneNode st m np n).1 (P ++ (cloneNode st m np n).2.2.outs) ∧
+    SameBut st { (cloneNode st m np n).1 with vnames := st.vnames } ∧
+    (cloneNode st m np n).1.cur = st.cur ∧ st.L ≤ (cloneNode st m np n).1.L ∧
+    NodeOK (cloneNode st m np n).1.L st.inits (cloneNode st m np n).2.2 ∧
+    (∀ x id, vmapGet (cloneNode st m np n).2.1 x = some id → id < (cloneNode st m np n).1.L) := by
+  obtain ⟨i1, i2⟩ := newValues_ids st (n.outs.map (fun o => if o = "" then "" else np ++ o))
+  simp only [List.length_map] at i1 i2
+  have hcr := BndP.created ((n.outs.map (fun o => if o = "" then "" else np ++ o)).map VKey.raw) h
+  obtain ⟨b1, b2, b3, b4, b5, b6⟩ := newValuesK_spec
+    ((n.outs.map (fun o => if o = "" then "" else np ++ o)).map VKey.raw) st
+  obtain ⟨c1, c2, c3⟩ := newValuesK_csd
+    ((n.outs.map (fun o => if o = "" then "" else np ++ o)).map VKey.raw) st
+  have hlen : n.outs.length = (newValues st (n.outs.map (fun o => if o = "" then "" else np ++ o))).2.length := by
+    rw [i1]; simp
+  have hge : ∀ i ∈ (newValues st (n.outs.map (fun o => if o = "" then "" else np ++ o))).2, st.L ≤ i ∧
+      i < st.L + n.outs.length := by
+    intro i hi
+    rw [i1] at hi
+    simp only [List.mem_map, List.mem_range] at hi
+    obtain ⟨j, hj, rfl⟩ := hi
+    omega
+  simp only [cloneNode, newValues] at *
+  refine ⟨hcr, ⟨rfl, b3, b4, b5, by rw [c1], c2, c3⟩, c1, by rw [i2]; omega, ⟨?_, ?_⟩, ?_⟩
+  · intro o ho; rw [i2]; exact (hge o ho).2
+  · intro i hi
+    obtain ⟨x, hx⟩ := mem_mapIn hi
+    have := hb x i hx
+    refine ⟨by rw [i2]; omega, Or.inr ?_⟩
+    intro o ho
+    have := (hge o ho).1
+    omega
+  · intro x id hv
+    rw [i2]
+    by_cases hx : x ∈ n.outs
+    · obtain ⟨i, hi, hv'⟩ := vmapGet_zip_hit n.outs _ m x hlen hx
+      rw [hv'] at hv
+      have hid : i = id := Option.some.inj hv
+      rw [← hid]
+      exact (hge i (List.of_mem_zip hi).2).2
+    · rw [vmapGet_zip_miss n.outs _ m x hx] at hv
+      have := hb x id hv
+      omega
+
+theorem cloneNodes_wf (np : String) : ∀ (nodes : List FNode) (st : St) (m : VMap) (P : List Nat), BndP st P →
+    (∀ x id, vmapGet m x = some id → id < st.L) →
+    BndP (cloneNodes st m np nodes).1 (P ++ (cloneNodes st m np nodes).2.2.flatMap (·.outs)) ∧
+    (cloneNodes st m np nodes).1.handles = st.handles ∧ (cloneNodes st m np nodes).1.cache = st.cache ∧
+    (cloneNodes st m np nodes).1.inits = st.inits ∧ (cloneNodes st m np nodes).1.cur = st.cur ∧
+    (cloneNodes st m np nodes).1.stack = st.stack ∧ (cloneNodes st m np nodes).1.done = st.done ∧
+    st.L ≤ (cloneNodes st m np nodes).1.L ∧
+    (∀ c ∈ (cloneNodes st m np nodes).2.2, NodeOK (cloneNodes st m np nodes).1.L st.inits c) ∧
+    (∀ x id, vmapGet (cloneNodes st m np nodes).2.1 x = some id → id < (cloneNodes st m np nodes).1.L)
+  | [], st, m, P, h, hb => by
+    simp only [cloneNodes, List.flatMap_nil, List.append_nil]
+    exact ⟨h, trivial, trivial, trivial, trivial, trivial, trivial, Nat.le_refl _, by simp, hb⟩
+  | n :: r, st, m, P, h, hb => by
+    obtain ⟨a1, ⟨_, a2, a3, a4, _, a6, a7⟩, a5, a8, a9, a10⟩ := cloneNode_wf st m np n h hb
+    obtain ⟨b1, b2, b3, b4, b5, b6, b7, b8, b9, b10⟩ :=
+      cloneNodes_wf np r (cloneNode st m np n).1 (cloneNode st m np n).2.1 _ a1 a10
+    simp only [cloneNodes, List.flatMap_cons]
+    refine ⟨by rw [← List.append_assoc]; exact b1, b2.trans a2, b3.trans a3, b4.trans a4, b5.trans a5,
+      b6.trans a6, b7.trans a7, Nat.le_trans a8 b8, ?_, b10⟩
+    intro c hc
+    simp only [List.mem_cons] at hc
+    rcases hc with rfl | hc
+    · exact a9.mono b8 (fun i x => x)
+    · have := b9 c hc
+      rw [a4] at this
+      exact this
+
+/-- appending a list of well-formed nodes whose outputs cover the pending values. -/
+theorem BndP.placeMany {st : St} {P : List Nat} (h : BndP st P) (clones : List Node)
+    (hn : ∀ c ∈ clones, NodeOK st.L st.inits c) (hP : ∀ i ∈ P, ∃ c ∈ clones, i ∈ c.outs)
+    (hs : List (Option Nat)) (hhs : ∀ i, some i ∈ hs → i < st.L)
+    (st' : St) (e1 : st'.L = st.L) (e2 : st'.handles = st.handles ++ hs)
+    (e3 : st'.cache = st.cache) (e4 : st'.inits = st.inits) (e5 : st'.cur.inputs = st.cur.inputs)
+    (e5' : st'.cur.nodes = st.cur.nodes ++ clones) (e6 : st'.stack = st.stack) (e7 : st'.done = st.done) :
+    Bnd st' := by
+  have hfr : ∀ f' ∈ st'.frames, f' = st'.cur ∨ f' ∈ st.frames := by
+    intro f' hf'
+    simp only [St.frames, e6, e7, List.mem_cons] at hf' ⊢
+    rcases hf' with x | x
+    · exact Or.inl x
+    · exact Or.inr (Or.inr x)
+  have hcur : st.cur ∈ st.frames := by simp [St.frames]
+  have hcur' : st'.cur ∈ st'.frames := by simp [St.frames]
+  refine ⟨?_, ?_, ?_, ?_, ?_, ?_⟩
+  · intro i hi
+    rw [e2, List.mem_append] at hi
+    rw [e1]
+    exact hi.elim (h.handles i) (hhs i)
+  · intro e he; rw [e4]; exact h.cache e (e3 ▸ he)
+  · intro i hi; rw [e1]; exact h.inits i (e4 ▸ hi)
+  · intro f' hf' i hi
+    rw [e1]
+    rcases hfr f' hf' with rfl | x
+    · exact h.finputs st.cur hcur i (e5 ▸ hi)
+    · exact h.finputs f' x i hi
+  · intro f' hf' n hnm
+    rw [e1, e4]
+    rcases hfr f' hf' with rfl | x
+    · rw [e5'] at hnm
+      rcases List.mem_append.mp hnm with y | y
+      · exact h.nodes st.cur hcur n y
+      · exact hn n y
+    · exact h.nodes f' x n hnm
+  · intro i hi _
+    rw [e1] at hi
+    by_cases hp : i ∈ P
+    · obtain ⟨c, hc, hic⟩ := hP i hp
+      exact Or.inr ⟨st'.cur, hcur', Or.inr ⟨c, by rw [e5']; simp [hc], hic⟩⟩
+    · rcases h.defined i hi hp with hd | ⟨f, hf, hd⟩
+      · exact Or.inl (e4 ▸ hd)
+      · simp only [St.frames, List.mem_cons] at hf
+        rcases hf with rfl | hf
+        · refine Or.inr ⟨st'.cur, hcur', ?_⟩
+          rcases hd with hd | ⟨n, hn1, hn2⟩
+          · exact Or.inl (e5 ▸ hd)
+          · exact Or.inr ⟨n, by rw [e5']; simp [hn1], hn2⟩
+        · exact Or.inr ⟨f, by simp only [St.frames, e6, e7, List.mem_cons]; exact Or.inr hf, hd⟩
+
+theorem resolveArgs_refs : ∀ (args : List Arg) (st : St), args.all isRef = true → (resolveArgs st args).1 = st
+  | [], _, _ => rfl
+  | .ref _ :: r, st, h => by
+    simp only [List.all_cons, isRef, Bool.true_and] at h
+    simp only [resolveArgs]; exact resolveArgs_refs r st h
+  | .none :: r, st, h => by
+    simp only [List.all_cons, isRef, Bool.true_and] at h
+    simp only [resolveArgs]; exact resolveArgs_refs r st h
+  | .lit _ :: _, _, h => by simp [isRef] at h
+
+theorem inlineRun_but (total : Bool) (st0 : St) (f : Fn) (actuals : List (Option Nat))
+    (desired : Option (List String)) :
+    SameBut (inlineClones total st0 f actuals).1 (inlineRun total st0 f actuals desired).1 := by
+  unfold inlineRun
+  simp only []
+  exact SameBut.trans (addInlined_but _ _ _) (renameFinals_core _ _ _ _).but
+
+theorem Bnd.doInline (total : Bool) (fns : List Fn) (st : St) (fi : Nat) (a : List Arg)
+    (o : Option (List String)) (p : String) (h : Bnd st) : Bnd (doInline total fns st fi a o p) := by
+  unfold OV.C18.doInline
+  split
+  · exact Bnd.fail st _ h
+  · rename_i f _
+    split
+    · exact Bnd.fail st _ h
+    · rename_i hrefs
+      split
+      · exact Bnd.fail st _ h
+      · split
+        · exact Bnd.fail st _ h
+        · simp only []
+          have hrefs' : a.all isRef = true := by simpa using hrefs
+          -- the builder the body is inlined into
+          have h0 : Bnd (if p = "" then st else pushScope st p) := by
+            split
+            · exact h
+            · exact h.curMeta rfl rfl rfl rfl rfl rfl rfl rfl
+          generalize hst0 : (if p = "" then st else pushScope st p) = st0 at h0 ⊢
+          have hact : ∀ i, some i ∈ (resolveArgs st0 a).2 → i < st0.L := by
+            intro i hi
+            obtain ⟨_, _, _, _, _, w6⟩ := resolveArgs_spec a st0 h0
+            rcases w6 i hi with x | x
+            · rw [resolveArgs_refs a st0 hrefs'] at x; exact h0.inits i x
+            · exact h0.handles i x
+          obtain ⟨b1, b2, b3, b4, b5, b6, b7, b8, b9, b10⟩ := cloneNodes_wf
+            (autoNodeName st0.cur (nodeCount total st0) f.name ++ "/") f.nodes st0
+            (f.formals.zip (resolveArgs st0 a).2) [] h0
+            (vmapGet_zip_bound f.formals _ st0.L hact)
+          obtain ⟨r1, r2, r3⟩ := inlineRun_spec total st0 f (resolveArgs st0 a).2
+            (o.map (fun o => o.map (qualifyValue st.cur)))
+          obtain ⟨u1, u2, u3, u4, u5, u6, u7⟩ := inlineRun_but total st0 f (resolveArgs st0 a).2
+            (o.map (fun o => o.map (qualifyValue st.cur)))
+          simp only [List.nil_append] at b1
+          unfold inlineClones at r1 r2 r3 u1 u2 u3 u4 u5 u6 u7
+          have hpop : ∀ s : St, SameBut s (if p = "" then s else popScope s) ∧
+              (if p = "" then s else popScope s).cur.nodes = s.cur.nodes := by
+            intro s
+            split
+            · exact ⟨SameBut.refl s, rfl⟩
+            · exact ⟨popScope_but s, popScope_nodes s⟩
+          obtain ⟨⟨v1, v2, v3, v4, v5, v6, v7⟩, v8⟩ := hpop
+            (inlineRun total st0 f (resolveArgs st0 a).2 (o.map (fun o => o.map (qualifyValue st.cur)))).1
+          refine b1.placeMany _ (fun c hc => by rw [b4]; exact b9 c hc) ?_ _ ?_ _
+            (by simp only [St.L] at v1 u1 ⊢; rw [v1, u1]) (by simp only []; rw [v2, u2, r3]) (by simp only []; rw [v3, u3])
+            (by simp only []; rw [v4, u4]) (by simp only []; rw [v5, u5]) (by simp only []; rw [v8, r1, b5])
+            (by simp only []; rw [v6, u6]) (by simp only []; rw [v7, u7])
+          · intro i hi
+            simp only [List.mem_flatMap] at hi
+            exact hi
+          · intro i hi
+            simp only [List.mem_map] at hi
+            obtain ⟨x, _, hx⟩ := hi
+            exact b10 x i hx
+
+theorem Bnd.stepAll (total : Bool) (fns : List Fn) (st : St) (it : Item) (h : Bnd st) :
+    Bnd (OV.C18.step total fns st it) := by
+  by_cases hw : wfItem it = true
+  · exact Bnd.step total fns st it hw h
+  · cases it with
+    | inline f a o p => exact Bnd.doInline total fns st f a o p h
+    | _ => simp [wfItem] at hw
+
+theorem Bnd.foldlAll (total : Bool) (fns : List Fn) : ∀ (tr : List Item) (st : St),
+    Bnd st → Bnd (tr.foldl (OV.C18.step total fns) st)
+  | [], _, h => h
+  | it :: r, st, h => by
+    simp only [List.foldl_cons]
+    exact Bnd.foldlAll total fns r _ (Bnd.stepAll total fns st it h)
 
 end OV.C18
